@@ -179,6 +179,12 @@ def run_history(ops, props, check_public=True, probe_every=0):
     s = gen.apply_op(None, ops[0]); m = Model(); m.apply(ops[0])
     first_solve_done = False
     for i, op in enumerate(ops[1:], 1):
+        if op["op"] == "set_comp_phases" and isinstance(op.get("name"), str):
+            # only well-typed configurations belong to the properties' domain (lists for sources/converters/regulators/switches/mux,
+            # tables for loads, C06): an alphabet entry chosen for the base system may meet another kind after earlier edits
+            r_ = m.resolve(op["name"])
+            if r_ is not None and ((m.nodes[r_].type == "LOAD") != isinstance(op["conf"], dict)) and isinstance(op["conf"], (dict, list)):
+                continue
         before_i = snap_internal(s)
         before_p = snap_public(s, solve=first_solve_done) if check_public else None
         try:
